@@ -2,7 +2,9 @@
 // stores of lachesis-base (shared by the C22, C23 and C24 harnesses).
 //
 // A case is   <base> <layer>* ; op ; op ; ...
-//   base:   mem | ldb | pbl            (memorydb, leveldb in a temp dir, pebble in a temp dir)
+//   base:   mem | ldb | pbl            (memorydb, leveldb in a temp dir, pebble in a temp dir;
+//           ldb! / pbl! = a fresh instance opened for this history only and removed afterwards,
+//           ldb / pbl = an instance kept open, wiped and verified empty before the history)
 //   layer:  t<hex> (table.New(x, prefix); "t-" = empty prefix) | f (flushable.Wrap) | s (synced.WrapStore)
 //           | z (flushable.NewLazy whose producer returns the store below)
 //           layers are listed bottom-up; depth 0 is the top of the stack.
@@ -217,6 +219,7 @@ type Stack struct {
 	flus   map[int]flusher
 	rec    *recStore
 	eng    *engine
+	fresh  bool
 }
 
 func Build(header []string) *Stack {
@@ -227,6 +230,10 @@ func Build(header []string) *Stack {
 		base = memorydb.New()
 	case "ldb", "pbl":
 		s.eng = acquire(header[0])
+		base = s.eng.db
+	case "ldb!", "pbl!": // a fresh instance in its own temp dir, closed and removed after this history
+		s.eng = openEngine(header[0][:3])
+		s.fresh = true
 		base = s.eng.db
 	default:
 		panic("bad base " + header[0])
@@ -271,7 +278,11 @@ func Build(header []string) *Stack {
 
 func (s *Stack) Close() {
 	if s.eng != nil {
-		release(s.eng)
+		if s.fresh {
+			s.eng.close()
+		} else {
+			release(s.eng)
+		}
 	}
 }
 
